@@ -181,3 +181,12 @@ Definition entry_aderef (a : list str) : list str :=
     let res := aeval 6000 env (dec_aexp e) 0 in triple show_Z res res false
   | _ => [lit "?args"]
   end.
+
+(** firstchar: s, applicable flag, the case mapping of the first character (oracle) *)
+From BV Require NoPanic.FirstChar.
+Definition entry_firstchar (a : list str) : list str :=
+  match a with
+  | [s; app; mapped] =>
+    let r := FirstChar.first_char_case s (dec_bool app) mapped in triple (fun x => x) r r false
+  | _ => [lit "?args"]
+  end.
